@@ -1,17 +1,19 @@
 #!/bin/bash
-# usage: [SUF="g:out h:out2"] tools/seed_collect.sh Cnn [extra props to evaluate]   -- collects /tmp/seed3_Cnn/out{,2} as seeded/Cnn_e / _f,
-# queues evaluation (/tmp/seedq/eval) and confirmation (/tmp/seedq/confirm), removes the scratch worktree
+# usage: [SUF="g:out h:out2"] tools/seed_collect.sh Cnn [extra props to evaluate]   -- collects /tmp/seed3_Cnn/out{,2} as seeded/Cnn_e / _f
+# (or the suffixes given in SUF), queues evaluation (/tmp/seedq/eval) and confirmation (/tmp/seedq/confirm), and removes the
+# scratch worktree ONLY when every out directory was copied completely
 id=$1; shift; cd /verif
+ok=1
 for s in ${SUF:-e:out f:out2}; do n=${s%%:*}; o=${s##*:}
   if [ -d /tmp/seed3_$id/$o ]; then
     mkdir -p seeded/${id}_$n
     # everything the demonstration needs (auxiliary headers live in sub-directories), except built binaries / large files
-    (cd /tmp/seed3_$id/$o && find . -type f -size -200k ! -perm -u+x -o -type f -name "*.sh" | cpio -pdm /verif/seeded/${id}_$n/ 2>/dev/null)
-    if git -C /repo apply --check /verif/seeded/${id}_$n/patch.diff; then
+    (cd /tmp/seed3_$id/$o && find . -type f -size -200k \( ! -perm -u+x -o -name "*.sh" \) -exec cp --parents {} /verif/seeded/${id}_$n/ \;)
+    if [ -s seeded/${id}_$n/patch.diff ] && git -C /repo apply --check /verif/seeded/${id}_$n/patch.diff; then
       echo "seeded/${id}_$n $id $*" > /tmp/seedq/eval/$(date +%s%N)_${id}_$n.job
       echo "seeded/${id}_$n" > /tmp/seedq/confirm/$(date +%s%N)_${id}_$n.job
       echo "${id}_$n collected"
-    else echo "${id}_$n: patch does not apply"; fi
+    else echo "${id}_$n: patch missing or does not apply - worktree kept"; ok=0; fi
   fi
 done
-git -C /repo worktree remove --force /tmp/seed3_$id 2>/dev/null; rm -rf /tmp/seed3_$id
+if [ $ok = 1 ]; then git -C /repo worktree remove --force /tmp/seed3_$id 2>/dev/null; rm -rf /tmp/seed3_$id; fi
